@@ -278,6 +278,16 @@ func genChainWalk(r *rand.Rand, n int) []Step {
 	outage := 0
 	nextLev, nextPerp := 1, 1
 	sizes := []string{"one", "dust", "s1", "s2", "s3"}
+	if genIndex%4 == 1 {
+		// scripted corner: an external incentive starts while every oracle price has expired (the pools' TVL reads zero), somebody
+		// joins the constant-product pool during the outage, then the feeders return; afterwards everybody claims
+		st = append(st, Step{"a": "block", "dt": float64(4000)}, Step{"a": "block", "dt": float64(5)},
+			Step{"a": "incentive", "u": "u2", "p": float64(2), "d": pick(r, "uatom", "uusdc"), "perBlock": "1000000", "from": float64(0), "len": float64(12)},
+			Step{"a": "block", "dt": float64(5)}, Step{"a": "block", "dt": float64(5)},
+			Step{"a": "join", "u": "u3", "p": float64(2), "sz": pick(r, "s2", "s3"), "mode": "all"}, Step{"a": "block", "dt": float64(5)}, Step{"a": "block", "dt": float64(5)},
+			Step{"a": "feedAll"}, Step{"a": "block", "dt": float64(5)}, Step{"a": "feedAll"}, Step{"a": "block", "dt": float64(5)},
+			Step{"a": "claim", "u": "u3", "pools": []any{float64(2)}}, Step{"a": "claim", "u": "u1", "pools": []any{float64(2)}}, Step{"a": "feedAll"}, Step{"a": "block", "dt": float64(5)})
+	}
 	if genIndex%4 == 2 {
 		// scripted corner: no community tax, staking rewards split between the validator and the Eden / EdenB representatives
 		// whose stakes change by a few units from block to block (every split rounds differently) while fees keep arriving
